@@ -16,6 +16,9 @@ Abstract pattern (JSON-serialisable dict):
           attrref = ["c", attr-index] | ["k", text]
           tyref   = ["c", type-index] | ["k", text]
   layout: "grouped" | "lazy"          order of the declarations in the emitted text
+  hdr   : {"benefit": int, "sym": null | str}   header of the `pdl.pattern` op (optional; default benefit 1, no name).
+          The denotation of a pattern does not depend on it: the benefit only orders SEVERAL patterns, the symbol
+          name is a label (the conversion names the rewriter function after it).
   mres  : "match" | "rewrite"         where `pdl.result` ops used only by the rewrite are declared
 
 Abstract payload:
@@ -37,6 +40,33 @@ WRAPPER = "test.op"
 
 def _valty(n: int) -> str:
     return ", ".join(["!pdl.value"] * n)
+
+
+HDR_DEFAULT = {"benefit": 1, "sym": None}
+
+
+def hdr_of(p: dict) -> dict:
+    h = p.get("hdr") or {}
+    return {"benefit": h.get("benefit", 1), "sym": h.get("sym")}
+
+
+def sym_text(name: str) -> str:
+    import re
+    return "@" + name if re.fullmatch(r"[A-Za-z_][A-Za-z0-9_$.]*", name) else '@"' + name + '"'
+
+
+def header_text(h: dict) -> str:
+    """`pdl.pattern [@name] : benefit(n)`"""
+    return "pdl.pattern" + (" " + sym_text(h["sym"]) if h.get("sym") is not None else "") + f" : benefit({h.get('benefit', 1)})"
+
+
+HEADER_RE = r"pdl\.pattern\b[^{]*\{"
+
+
+def with_header(ptext: str, h: dict) -> str:
+    """the same single-pattern module text under another `pdl.pattern` header (corpus patterns)"""
+    import re
+    return re.sub(HEADER_RE, lambda m: header_text(h) + " {", ptext, count=1)
 
 
 def pattern_text(p: dict) -> str:
@@ -191,7 +221,7 @@ def pattern_text(p: dict) -> str:
         else:
             raise ValueError(act)
     out.append("  }")
-    return "builtin.module {\npdl.pattern : benefit(1) {\n" + "\n".join(out) + "\n}\n}\n"
+    return "builtin.module {\n" + header_text(hdr_of(p)) + " {\n" + "\n".join(out) + "\n}\n}\n"
 
 
 def payload_text(pl: dict) -> str:
@@ -294,7 +324,9 @@ def canon_line(pl: dict) -> str:
         return f"a{ref[1]}" if ref[0] == "a" else (f"r{ref[1]}.{ref[2]}" if ref[0] == "r" else "dangling")
     parts = []
     for o in pl["ops"]:
-        al = sorted([[n, t] for n, t in o.get("attrs", [])] + [[n, t] for n, t in o.get("props", [])])
+        # properties are written `<n>=…`: an attribute and a property of the same name are different things (and so
+        # are an op that keeps a value as a property and one that keeps it as an attribute)
+        al = sorted([[n, t] for n, t in o.get("attrs", [])] + [["<" + n + ">", t] for n, t in o.get("props", [])])
         parts.append(o["name"] + "(" + ",".join(v(r) for r in o["operands"]) + "){" +
                      ",".join(f"{n}={t}" for n, t in al) + "}->(" + ",".join(o["results"]) + ")")
     return "[" + ",".join(pl["args"]) + "] " + " ; ".join(parts)
@@ -571,12 +603,13 @@ def extract_pattern(pat_op) -> dict | None:
                 return None
     except KeyError:
         return None
-    return {"types": types, "attrs": attrs, "vals": vals, "ops": ops, "rw": acts}
+    hdr = {"benefit": pat_op.benefit.value.data % 65536, "sym": pat_op.sym_name.data if pat_op.sym_name is not None else None}
+    return {"types": types, "attrs": attrs, "vals": vals, "ops": ops, "rw": acts, "hdr": hdr}
 
 
 def normalise_pattern(p: dict) -> dict:
     """drop layout hints and renumber nothing: used to compare extract(parse(text(p))) with p"""
-    return {k: p[k] for k in ("types", "attrs", "vals", "ops", "rw")}
+    return {**{k: p[k] for k in ("types", "attrs", "vals", "ops", "rw")}, "hdr": hdr_of(p)}
 
 
 # ---------------------------------------------------------------------------------------------
@@ -701,6 +734,24 @@ def canon_opname(name: str) -> str:
     return name if t is not None and not issubclass(t, UnregisteredOp) else "builtin.unregistered"
 
 
+_PROP_NAMES: dict[str, frozenset] = {}
+
+
+def created_prop_names(name: str) -> frozenset:
+    """the attribute names of a `pdl.operation` of the rewrite section that denote PROPERTIES of the created op:
+    those the definition of the (registered) operation declares as properties; everything else, and everything on an
+    unregistered op, is a discardable attribute"""
+    if name not in _PROP_NAMES:
+        from xdsl.dialects.builtin import UnregisteredOp
+        from xdsl.irdl import IRDLOperation
+        t = get_ctx().get_optional_op(name)
+        if t is not None and issubclass(t, IRDLOperation) and not issubclass(t, UnregisteredOp):
+            _PROP_NAMES[name] = frozenset(t.get_irdl_definition().properties.keys())
+        else:
+            _PROP_NAMES[name] = frozenset()
+    return _PROP_NAMES[name]
+
+
 class RefError(Exception):
     pass
 
@@ -768,7 +819,7 @@ def ref_apply(p: dict, pl: dict, b: dict) -> dict:
                     t = b["attrs"][ar[1]]
                 else:
                     t = norm_attr_text(ar[1])
-                (props if n in ("prop1", "prop2", "prop3") else attrs).append([n, t])
+                (props if n in created_prop_names(act[1]) else attrs).append([n, t])
             tys = []
             for tr in act[4]:
                 if tr[0] == "c":
@@ -928,7 +979,7 @@ def ref_drive(p: dict, pl: dict, reverse: bool = False, fuel: int = 400, trace: 
                         t = b["attrs"][ar[1]]
                     else:
                         t = norm_attr_text(ar[1])
-                    (props if n in ("prop1", "prop2", "prop3") else attrs).append([n, t])
+                    (props if n in created_prop_names(act[1]) else attrs).append([n, t])
                 tys = []
                 for tr in act[4]:
                     if tr[0] == "c":
@@ -1122,7 +1173,8 @@ def lean_ir_line(pl: dict, I: Interner) -> str:
         return f"a{ref[1]}" if ref[0] == "a" else (f"r{ref[1]}.{ref[2]}" if ref[0] == "r" else "dangling")
     parts = []
     for o in pl["ops"]:
-        al = sorted((I.name[n], I.av[t]) for n, t in list(o.get("attrs", [])) + list(o.get("props", [])))
+        # (stable by name, properties first: the model keeps one list in which the property shadows the attribute)
+        al = sorted(((I.name[n], I.av[t]) for n, t in list(o.get("props", [])) + list(o.get("attrs", []))), key=lambda x: x[0])
         parts.append(f"{I.opname[o['name']]}(" + ",".join(v(r) for r in o["operands"]) + "){" +
                      ",".join(f"{n}={a}" for n, a in al) + "}(" + ",".join(str(I.ty[t]) for t in o["results"]) + ")")
     return "args(" + ",".join(str(I.ty[t]) for t in pl["args"]) + ") " + ";".join(parts)
